@@ -320,6 +320,55 @@ template <size_t I, typename T1, typename T2>
     }
 }
 
+/// \brief Extracts the element of type T from the pair. Fails to compile if both elements have the same type.
+template <typename T, typename U>
+[[nodiscard]] constexpr auto get(pair<T, U>& p) noexcept -> T&
+{
+    return p.first;
+}
+
+template <typename T, typename U>
+[[nodiscard]] constexpr auto get(pair<T, U> const& p) noexcept -> T const&
+{
+    return p.first;
+}
+
+template <typename T, typename U>
+[[nodiscard]] constexpr auto get(pair<T, U>&& p) noexcept -> T&&
+{
+    return static_cast<T&&>(p.first);
+}
+
+template <typename T, typename U>
+[[nodiscard]] constexpr auto get(pair<T, U> const&& p) noexcept -> T const&&
+{
+    return static_cast<T const&&>(p.first);
+}
+
+template <typename T, typename U>
+[[nodiscard]] constexpr auto get(pair<U, T>& p) noexcept -> T&
+{
+    return p.second;
+}
+
+template <typename T, typename U>
+[[nodiscard]] constexpr auto get(pair<U, T> const& p) noexcept -> T const&
+{
+    return p.second;
+}
+
+template <typename T, typename U>
+[[nodiscard]] constexpr auto get(pair<U, T>&& p) noexcept -> T&&
+{
+    return static_cast<T&&>(p.second);
+}
+
+template <typename T, typename U>
+[[nodiscard]] constexpr auto get(pair<U, T> const&& p) noexcept -> T const&&
+{
+    return static_cast<T const&&>(p.second);
+}
+
 template <
     typename T1,
     typename T2,
